@@ -4,6 +4,8 @@ func init() {
 	vRegister("H_UnpackAction", H_UnpackAction)
 	vRegister("H_UnpackOperation", H_UnpackOperation)
 	vRegister("H_RoundTrip", H_RoundTrip)
+	vRegister("H_UnpackActionBytes", H_UnpackActionBytes)
+	vRegister("H_UnpackOperationBytes", H_UnpackOperationBytes)
 }
 
 // documented action names and their kernel constants (README / seccomp.yml, linux/seccomp.h)
@@ -75,6 +77,68 @@ func H_UnpackOperation() {
 		vAssert(i < len(Operations) && string(Operations[i]) == d, "C14.operations_list@"+d)
 	}
 	vAssert(len(Operations) == len(vDocOperations), "C14.operations_len")
+}
+
+// H_UnpackActionBytes / H_UnpackOperationBytes: the same two obligations with
+// the input as a string of "len" arbitrary 7-bit ASCII characters (a byte
+// vector, not an equality atom), so that code which inspects the string byte
+// by byte - its length, a prefix, single characters - is decided too: a name
+// followed or preceded by something else must be rejected.
+func H_UnpackActionBytes() {
+	vMapOrder(vParamStr("order"))
+	s := vBytesStr("s", vParamInt("len"))
+	a := Action(0x12345678)
+	var err error
+	code := vRun(func() { err = a.Unpack(s) })
+	vMapOrder("asc")
+	vAssert(code == 0, "C14.unpack_nopanic")
+	if code != 0 {
+		return
+	}
+	ls := vLower(s)
+	known := false
+	var want uint32
+	for _, d := range vDocActions {
+		hit := ls == d.name
+		known = vOr(known, hit)
+		want = vIte32(hit, d.val, want)
+	}
+	vObs("a", uint64(a))
+	vAssert((err == nil) == known, "C14.unpack_iff")
+	if err == nil {
+		vAssert(uint32(a) == want, "C14.unpack_value")
+		vCover("cover.unpack_bytes.ok")
+	} else {
+		vAssert(uint32(a) == 0x12345678, "C14.reject_leaves_value")
+		vCover("cover.unpack_bytes.rejected")
+	}
+}
+
+func H_UnpackOperationBytes() {
+	s := vBytesStr("s", vParamInt("len"))
+	o := Operation("untouched")
+	var err error
+	code := vRun(func() { err = o.Unpack(s) })
+	vAssert(code == 0, "C14.unpack_nopanic")
+	if code != 0 {
+		return
+	}
+	ls := vLower(s)
+	known := false
+	for _, d := range vDocOperations {
+		hit := ls == vLower(d)
+		known = vOr(known, hit)
+		if err == nil {
+			vAssert(vImplies(hit, string(o) == d), "C14.unpack_op_value@"+d)
+		}
+	}
+	vAssert((err == nil) == known, "C14.unpack_op_iff")
+	if err == nil {
+		vCover("cover.unpack_op_bytes.ok")
+	} else {
+		vAssert(o == "untouched", "C14.reject_leaves_op")
+		vCover("cover.unpack_op_bytes.rejected")
+	}
 }
 
 // H_RoundTrip: parsing the printed form of any named value gives the value
